@@ -248,6 +248,11 @@ class Program:
             for f in files:
                 if f.endswith(".py"):
                     paths.append(os.path.join(d, f))
+        for rel in sorted(overrides or {}):
+            # a module that exists only in the override set (a patch that adds a file)
+            p = os.path.join(repo, rel)
+            if rel.endswith(".py") and p.startswith(root + os.sep) and p not in paths:
+                paths.append(p)
         for p in sorted(paths):
             rel = os.path.relpath(p, repo)
             if overrides and rel in overrides:
@@ -271,7 +276,71 @@ class Program:
             raise AnalysisError("modules vanished: %s" % sorted(missing))
         for mi in prog.modules.values():
             prog._index_module(mi)
+        prog._index_exception_factories()
+        prog._index_forwarders()
         return prog
+
+    def _index_forwarders(self) -> None:
+        """F is a forwarder of G when F's whole body is `return G(<F's own parameters, in order>)` (a method body moved
+        into a module-level function, the method kept as a thin wrapper): a call of G is then a call of F.
+        self.forwarded: G.key -> F.key (only when exactly one F forwards to G)."""
+        fw: Dict[str, List[str]] = {}
+        for fi in self.funcs.values():
+            if isinstance(fi.node, ast.Lambda) or fi.kind not in ("function", "static"):
+                continue
+            body = [st for st in fi.node.body if not (isinstance(st, ast.Expr) and isinstance(st.value, ast.Constant))]
+            if len(body) != 1 or not isinstance(body[0], ast.Return) or not isinstance(body[0].value, ast.Call):
+                continue
+            c = body[0].value
+            if not isinstance(c.func, ast.Name) or any(isinstance(a, ast.Starred) for a in c.args):
+                continue
+            g = self.resolve_name(fi.module, c.func.id)
+            if g.__class__.__name__ != "FuncInfo" or g.kind != "function":
+                continue
+            passed = [a.id if isinstance(a, ast.Name) else None for a in c.args]
+            bykw = {k.arg: (k.value.id if isinstance(k.value, ast.Name) else None) for k in c.keywords}
+            if passed != fi.params[: len(passed)] or any(k != v for k, v in bykw.items()):
+                continue
+            if len(passed) + len(bykw) != len(fi.params) or g.params[: len(passed)] != fi.params[: len(passed)] and len(g.params) != len(fi.params):
+                continue
+            fw.setdefault(g.key, []).append(fi.key)
+        self.forwarded = {g: fs[0] for g, fs in fw.items() if len(fs) == 1}
+
+    def _index_exception_factories(self) -> None:
+        """Helpers that only build and return an error object (`raise self._failure(...)`): name -> class raised.
+        Published to pv.cfg so that every reader of a `raise` statement sees the class, not the helper's name."""
+        import builtins
+
+        def is_exc(name: str, seen=()) -> bool:
+            b = getattr(builtins, name, None)
+            if isinstance(b, type) and issubclass(b, BaseException):
+                return True
+            ci = self.classes.get(name)
+            if ci is None or name in seen:
+                return name.endswith(("Error", "Exception"))
+            return any(is_exc(norm(x).split(".")[-1], seen + (name,)) for x in ci.node.bases)
+
+        table: Dict[str, Optional[str]] = {}
+        for fi in self.funcs.values():
+            if isinstance(fi.node, ast.Lambda):
+                continue
+            rets = [n for n in ast.walk(fi.node) if isinstance(n, ast.Return)]
+            if not rets:
+                continue
+            classes = set()
+            for r in rets:
+                v = r.value
+                f = v.func if isinstance(v, ast.Call) else None
+                nm = f.id if isinstance(f, ast.Name) else (f.attr if isinstance(f, ast.Attribute) else None)
+                classes.add(nm if nm and is_exc(nm) and nm not in table else None)
+            if len(classes) == 1 and None not in classes:
+                c = classes.pop()
+                # two helpers of the same simple name that build different classes: ambiguous, keep neither
+                table[fi.name] = c if table.get(fi.name, c) == c else None
+        self.exc_factories = {k: v for k, v in table.items() if v}
+        from . import cfg as _cfg
+
+        _cfg.EXC_FACTORIES = dict(self.exc_factories)
 
     def _index_module(self, mi: ModInfo) -> None:
         for st in mi.tree.body:
@@ -401,6 +470,46 @@ class Program:
         if tgt is None:
             return None
         return self.resolve_dotted(tgt)
+
+    def resolve_constant(self, mi: ModInfo, name: str, _depth: int = 0):
+        """A module-level name (own or imported from a module of the package) that is bound once to an int / bool / str
+        literal and never rebound: (True, value); otherwise (False, None).  Floats are left symbolic on purpose: the
+        tolerance rules reason about the name, not the number."""
+        if _depth > 4:
+            return (False, None)
+        if name in mi.assigns:
+            binds = 0
+            for st in ast.walk(mi.tree):
+                if isinstance(st, (ast.Assign, ast.AnnAssign, ast.AugAssign)):
+                    tg = st.targets if isinstance(st, ast.Assign) else [st.target]
+                    binds += sum(1 for t in tg for x in ast.walk(t) if isinstance(x, ast.Name) and x.id == name)
+                elif isinstance(st, ast.Global) and name in st.names:
+                    return (False, None)
+            v = mi.assigns[name]
+            if binds == 1 and isinstance(v, ast.Constant) and isinstance(v.value, (int, bool, str)) and not isinstance(v.value, float):
+                return (True, v.value)
+            return (False, None)
+        tgt = mi.imports.get(name)
+        if tgt and "." in tgt:
+            modname, _, attr = tgt.rpartition(".")
+            m = self.modules.get(modname)
+            if m is not None:
+                return self.resolve_constant(m, attr, _depth + 1)
+        return (False, None)
+
+    def resolve_table(self, mi: ModInfo, name: str):
+        """A module-level name of this module bound once to a tuple display (a constant table): its AST, else None."""
+        v = mi.assigns.get(name)
+        if not isinstance(v, ast.Tuple):
+            return None
+        binds = 0
+        for st in ast.walk(mi.tree):
+            if isinstance(st, (ast.Assign, ast.AnnAssign, ast.AugAssign)):
+                tg = st.targets if isinstance(st, ast.Assign) else [st.target]
+                binds += sum(1 for t in tg for x in ast.walk(t) if isinstance(x, ast.Name) and x.id == name)
+            elif isinstance(st, ast.Global) and name in st.names:
+                return None
+        return v if binds == 1 else None
 
     def resolve_dotted(self, dotted: str, _depth: int = 0) -> Optional[object]:
         if _depth > 6:
